@@ -14,11 +14,8 @@ mod placement;
 mod pool;
 mod regs;
 mod sig;
-mod sim;
 mod times;
 mod watch;
-mod winsim;
-mod platsim;
 
 pub fn tid() -> u64 {
     thread_local! { static T: std::cell::Cell<u64> = const { std::cell::Cell::new(0) }; }
@@ -47,12 +44,9 @@ fn main() {
         "placement" => placement::run(&args[2], &args[3]),
         "times" => times::run(&args[2], &args[3]),
         "locks" => locks::run(&args[2], &args[3]),
-        "sim" => sim::run(&args[2], &args[3]),
         "sig" => sig::run(&args[2], &args[3]),
         "asyncs" => asyncs::run(&args[2], &args[3]),
         "regs" => regs::run(&args[2], &args[3]),
-        "winsim" => winsim::run(&args[2], &args[3]),
-        "platsim" => platsim::run(&args[2], &args[3]),
         "selfcheck" => {
             // used by `check.py setup`: proves interposition is live
             events::open(&args[2]);
